@@ -135,7 +135,7 @@ def count_type_exprs(t):
 
 
 def plan(tier, seed):
-    n = 15000 if tier == "quick" else 150000
+    n = 15000 if tier == "quick" else 400000
     return [("random", n // 32, i) for i in range(32)] + [("chains", n // 64, i) for i in range(16)]
 
 
